@@ -1,7 +1,7 @@
 (* Final forms of the simulator theorems: statements about every end-of-period record [e] of every run of every
    well-formed network ([good]: decidable, see Sim/Wfb.v), for every horizon and every non-negative demand input. *)
 From SV Require Import Sim.Model Sim.Obs Sim.StateLemmas Sim.Inv_base Sim.Inv_book Sim.Inv_pipe Sim.Inv_node Sim.Inv_rm
-  Sim.Inv_init Sim.Inv_run Sim.Inv_bound Sim.Wfb.
+  Sim.Inv_init Sim.Inv_run Sim.Inv_bound Sim.Wfb Sim.Delay.
 
 Definition good (NW : net) : Prop := inert NW /\ netb NW = true.
 
@@ -97,4 +97,9 @@ Proof. intros H. pose proof (a_pl NW e (rec_all e H)) as [L1 L2]. split; [apply 
 Theorem orders_in_transit e n p : In e (run NW inputs) -> In p (preds (C n)) ->
   gq e (fcOQ, n, Nd p) + io0 NW n == qsum (gl e (fOP, p, Nd n)) + gq e (fcIO, p, Nd n).
 Proof. intros H Hp. pose proof (pc_ord NW e (a_pc NW e (rec_all e H)) n p Hp) as E. rewrite (nothing_lost e p (Nd n) H) in E. lra. Qed.
+(* the order a node places with a predecessor in period t is the inbound order that predecessor receives from it in
+   period t + (the node's order lead time); no hypothesis on the demands or disruptions is needed *)
+Theorem order_arrives t n p : In p (preds (C n)) -> (t + olt (C n) < length inputs)%nat ->
+  gq (nth (t + olt (C n)) (run NW inputs) empty_st) (fIO, p, Nd n) == gq (nth t (run NW inputs) empty_st) (fOQ, n, Nd p).
+Proof. intros Hp Ht. apply (order_delay NW good_wf good_wg good_vo good_wo p n Hp inputs t Ht). Qed.
 End Main.
